@@ -390,6 +390,29 @@ struct FltRun : Reporter {
                 }
     }
 #endif
+    // signed zeros, infinities and NaN: the six comparisons must equal the raw comparison of the exact values
+    // (IEEE semantics: -0 == +0, every ordered comparison with NaN is false) and <=> must agree with them
+    void special(R1 x1, R2 x2) {
+        ++st.pairs;
+        ++st.in_pre;
+        const f128 a = (f128)x1 * (f128)I::K1, b = (f128)x2 * (f128)I::K2;
+        const Q1 q1 = au::make_quantity<typename I::U1>(x1);
+        const Q2 q2 = au::make_quantity<typename I::U2>(x2);
+        sx1 = std::string(std::signbit(x1) ? "-" : "+") + fstr(x1 < 0 ? -x1 : x1);
+        sx2 = std::string(std::signbit(x2) ? "-" : "+") + fstr(x2 < 0 ? -x2 : x2);
+        const bool rr[2][6] = {{q1 < q2, q1 == q2, q1 > q2, q1 <= q2, q1 >= q2, q1 != q2},
+                               {q2 < q1, q2 == q1, q2 > q1, q2 <= q1, q2 >= q1, q2 != q1}};
+        const bool e[2][6] = {{a < b, a == b, a > b, a <= b, a >= b, a != b},
+                              {b < a, b == a, b > a, b <= a, b >= a, b != a}};
+        st.ops += 12;
+        for (int o = 0; o < 2; ++o)
+            for (int k = 0; k < 6; ++k) {
+                r[o][k] = rr[o][k];
+                if (rr[o][k] != e[o][k])
+                    v(CMP_EXACT, "cmp-exact", CMP_NAMES[k], o, sx1, sx2, rr[o][k] ? "true" : "false", e[o][k] ? "true" : "false");
+            }
+        spaceship(BoolC<I::SS>{}, q1, q2);
+    }
     void pair(R1 x1, R2 x2) {
         ++st.pairs;
         const f128 a = (f128)x1 * (f128)I::K1, b = (f128)x2 * (f128)I::K2;
@@ -441,6 +464,14 @@ void run_flt(int id, int emin, int emax, int estep) {
     rn.id = id;
     for (int x = -128; x < 128; ++x)
         for (int y = -128; y < 128; ++y) rn.pair(static_cast<R1>(x), static_cast<R2>(y));
+    {
+        const R1 s1[] = {R1(0), -R1(0), std::numeric_limits<R1>::quiet_NaN(), -std::numeric_limits<R1>::quiet_NaN(), R1(1), R1(-1),
+                         std::numeric_limits<R1>::infinity(), -std::numeric_limits<R1>::infinity(), std::numeric_limits<R1>::denorm_min()};
+        const R2 s2[] = {R2(0), -R2(0), std::numeric_limits<R2>::quiet_NaN(), -std::numeric_limits<R2>::quiet_NaN(), R2(1), R2(-1),
+                         std::numeric_limits<R2>::infinity(), -std::numeric_limits<R2>::infinity(), std::numeric_limits<R2>::denorm_min()};
+        for (R1 x : s1)
+            for (R2 y : s2) rn.special(x, y);
+    }
     const std::vector<R1> A = float_alphabet<R1>(emin, emax, estep);
     const std::vector<R2> B = float_alphabet<R2>(emin, emax, estep);
     for (R1 x : A)
